@@ -111,6 +111,15 @@ func (this *partition) loadRaft(nodeIds []uint64) error {
 		return nil
 	}
 
+	started := false
+	defer func() {
+		if !started {
+			// An error, or the raft library panicked on the group's log: a group
+			// that was never started must not be left behind as if it were loaded
+			this.raft = nil
+		}
+	}()
+
 	var err error
 	this.raft, err = raft.NewRaftGroup(this.id, nodeIds, this.wal, this.raftTransport)
 	if err != nil {
@@ -128,6 +137,7 @@ func (this *partition) loadRaft(nodeIds []uint64) error {
 	if err := this.raft.Start(); err != nil {
 		return err
 	}
+	started = true
 
 	this.log.Info("Loaded Raft")
 	return nil
@@ -283,12 +293,25 @@ func (this *partition) search(ctx context.Context, query []float32, k uint) (ind
 	return this.index.Search(ctx, query, k)
 }
 
+// The partition's raft group, or nil while it is not loaded on this node. The lock is
+// not kept: callers wait for the catalogue, whose apply loop loads and unloads groups
+func (this *partition) loadedRaft() *raft.RaftGroup {
+	this.raftMu.RLock()
+	defer this.raftMu.RUnlock()
+
+	return this.raft
+}
+
 func (this *partition) proposeAddNode(ctx context.Context, nodeId uint64) error {
+	group := this.loadedRaft()
+	if group == nil {
+		return RaftNotLoadedOnNodeErr
+	}
 	if err := this.datasetManager.addPartitionNode(ctx, this.dataset.id, this.id, nodeId); err != nil {
 		return err
 	}
 
-	return this.raft.ProposeJoin(nodeId, "")
+	return group.ProposeJoin(nodeId, "")
 }
 
 func (this *partition) addNode(nodeId uint64) {
@@ -305,11 +328,15 @@ func (this *partition) addNode(nodeId uint64) {
 }
 
 func (this *partition) proposeRemoveNode(ctx context.Context, nodeId uint64) error {
+	group := this.loadedRaft()
+	if group == nil {
+		return RaftNotLoadedOnNodeErr
+	}
 	if err := this.datasetManager.removePartitionNode(ctx, this.dataset.id, this.id, nodeId); err != nil {
 		return err
 	}
 
-	return this.raft.ProposeLeave(nodeId)
+	return group.ProposeLeave(nodeId)
 }
 
 func (this *partition) removeNode(nodeId uint64) {
